@@ -283,6 +283,22 @@ func checkLookup(t *rapid.T, matcher string) {
 	if err != nil {
 		t.Fatalf("table rejected: %v\n%s", err, cfg)
 	}
+	if rapid.IntRange(0, 3).Draw(t, "table-from-the-custom-backend's-definitions") == 0 {
+		// the same commands as the custom backend delivers them (JSON definitions, in the same order)
+		cmds, perr := route.Parse(bytes.NewBufferString(cfg))
+		if perr != nil {
+			t.Fatalf("%v\n%s", perr, cfg)
+		}
+		var defs []route.RouteDef
+		for _, c := range cmds {
+			defs = append(defs, *c)
+		}
+		tbl, err = route.NewTableCustom(&defs)
+		if err != nil {
+			t.Fatalf("definitions rejected: %v\n%s", err, cfg)
+		}
+		hx.Class("table-built-from-custom-backend-definitions")
+	}
 	globDisabled := rapid.Bool().Draw(t, "globDisabled")
 	picker := rapid.SampledFrom([]string{"rr", "rnd"}).Draw(t, "picker")
 	cache := route.NewGlobCache(rapid.SampledFrom([]int{1, 2, 5, 1000}).Draw(t, "cachesize"))
